@@ -13,8 +13,8 @@ import copy
 import random
 from fractions import Fraction as Fr
 
-from common import driver, impl, impl_site
-from dsl import build_model, param_slots, params_impl, shock_shapes
+from common import driver, fr, impl, impl_site, same_number
+from dsl import build_model, param_slots, params_impl, params_json, shock_shapes
 from gen import gen_initial_states, nontrivial, signature, strip
 from pipeline import (ImplFns, check_simulation, compare_value_arrays, explicit_case, frame_rows, init_impl, materialise_case,
                       model_solve)
@@ -127,11 +127,32 @@ def run_case(case):
                 try:
                     init = gen_initial_states(r, mj, 5, meta=meta)
                     V = [np.asarray(v) for v in fns.solve(params_impl(P))]
-                    df = fns.simulate(params_impl(P), initial_states=init_impl(mj, init), vf_arr_list=[I.jnp.asarray(v) for v in V], seed=3)
-                    res = check_simulation(mj, P, V, frame_rows(df, mj, 5), init)
+                    # functions with parameters of their own are also requested as additional targets: the reported columns must be
+                    # computed with the values passed to *this* call
+                    ptargets = [f["name"] for f in mj["functions"] if P["funcs"].get(f["name"]) and not f.get("stochastic") and not f["name"].endswith("_filter")]
+                    df = fns.simulate(params_impl(P), initial_states=init_impl(mj, init), vf_arr_list=[I.jnp.asarray(v) for v in V], seed=3,
+                                      **({"additional_targets": ptargets} if ptargets else {}))
+                    rows_ = frame_rows(df, mj, 5)
+                    res = check_simulation(mj, P, V, rows_, init)
                     evals += res["stats"]["agent_periods"]
                     for d in (res["C02"] + res["C03"])[:1]:
                         vs.append({"clause": "every function receives exactly the values stored under its own name (simulation)", "detail": d["detail"]})
+                    if ptargets and not vs:
+                        T_ = mj["n_periods"]
+                        req_rows = [{"env": [[s_, fr(rows_[t][i]["states"][s_])] for s_, _ in mj["states"]] + [[c_, fr(rows_[t][i]["choices"][c_])] for c_, _ in mj["choices"]], "t": t}
+                                    for t in range(T_) for i in range(5)]
+                        ans = driver().call({"op": "eval_funcs", "model": strip(mj), "params": params_json(P), "names": ptargets, "rows": req_rows})
+                        for kk, name in enumerate(ptargets):
+                            col = np.asarray(df[name])
+                            for ridx, a in enumerate(ans):
+                                evals += 1
+                                if a[kk] is not None and not same_number(float(col[ridx]), a[kk]):
+                                    vs.append({"clause": "every function receives exactly the values stored under its own name (additional targets of the simulation)",
+                                               "detail": f"target {name} row {divmod(ridx, 5)}: frame {fr(float(col[ridx]))}, with params[{name}] = {P['funcs'][name]} the function gives {a[kk]}"})
+                                    break
+                            if vs:
+                                break
+                        out["hist"]["param_targets"] = 1
                 except Exception as e:  # noqa: BLE001
                     vs.append({"clause": "simulate runs with parameters that follow the template", "detail": f"{impl_site(e)}: {str(e)[:300]}"})
     out["evals"] = evals
